@@ -26,7 +26,7 @@ Proof.
   induction k as [|k IH]; intros r i O; cbn [start_claim_all]; [exact O|]. cbv zeta.
   destruct (rstart_claim _ i) as [r1 ev1] eqn:E1. destruct (start_claim_all k r1 (i+1)) as [r2 ev2] eqn:E2. cbn [fst].
   change r2 with (fst (r2, ev2)). rewrite <- E2. apply IH.
-  unfold rstart_claim in E1. destruct (start_address_claim _ i) as [n' ev'] eqn:ES. injection E1 as <- _. cbn [rn with_rn].
+  unfold rstart_claim in E1. destruct (start_address_claim _ i) as [n' ev'] eqn:ES. apply (f_equal fst) in E1. cbn [fst] in E1. subst r1. cbn [rn with_rn].
   change n' with (fst (n', ev')). rewrite <- ES. apply start_address_claim_open. rewrite rn_chk_dev.
   destruct (_ =? _); [|exact O]. destruct (od_next_address 300 r i true) as ((_ & _ & _ & A & _) & _). congruence.
 Qed.
@@ -45,8 +45,8 @@ Proof.
     + destruct (negb _); injection H as <- <- <-; (split; [left; reflexivity|]); intros _; cbn [rn with_open n_q n_drv n_mode]; auto.
     + apply Z.eqb_neq in E1. destruct (sched_is_time (w64 r) (now r) (r_open_sched r)) eqn:ET.
       * destruct (start_claim_all _ _ 0) as [ra eva] eqn:ES. destruct (millis64 ra) as [rc ts] eqn:M. injection H as <- <- <-.
-        assert (O: n_open (rn (set_heartbeat_all (length (n_devs (rn (with_sync rc ts)))) (with_sync rc ts) 0 c_DefaultHeartbeatInterval 10000)) = 3).
-        { rewrite rn_set_heartbeat_all. cbn [rn with_sync]. replace (rn rc) with (rn ra) by (rewrite <- (rn_millis64 ra), M; reflexivity).
+        match goal with |- (_ \/ _ /\ _ /\ _ /\ n_open (rn ?X) = 3 /\ _) /\ _ => assert (O: n_open (rn X) = 3) end.
+        { rewrite rn_resync_heartbeats, rn_set_heartbeat_all. cbn [rn with_sync]. replace (rn rc) with (rn ra) by (rewrite <- (rn_millis64 ra), M; reflexivity).
           change ra with (fst (ra, eva)). rewrite <- ES. apply start_claim_all_open. reflexivity. }
         split; [right; repeat split; assumption|]. intros C. contradiction.
       * injection H as <- <- <-. split; [left; reflexivity|]. intros _. cbn [rn with_rxq]. auto.
@@ -152,21 +152,30 @@ Proof.
 Qed.
 
 Lemma rstep_mode0 gf r o : n_mode (rn r) = 0 -> rstep gf r o = rstep gf_none r o.
-Proof. intros M. destruct o; try reflexivity. cbn [rstep]. apply poll_mode0, M. Qed.
+Proof.
+  intros M. destruct o as [o| |f|iv off idev].
+  - destruct o; reflexivity.
+  - cbn [rstep]. apply poll_mode0, M.
+  - reflexivity.
+  - reflexivity.
+Qed.
+
+Lemma start_claim_all_mode0 : forall k r i, n_mode (rn r) = 0 -> snd (start_claim_all k r i) = [].
+Proof.
+  induction k as [|k IH]; intros r i M; cbn [start_claim_all]; [reflexivity|]. cbv zeta.
+  match goal with |- context [rstart_claim ?X i] => set (r0 := X) end.
+  assert (M0: n_mode (rn r0) = 0).
+  { subst r0. destruct (_ =? _); [|exact M]. destruct (od_next_address 300 r i true) as ((_ & A & _) & _). congruence. }
+  unfold rstart_claim, start_address_claim, is_ready_to_send. rewrite rn_chk_dev, M0. cbn [Z.eqb negb andb]. rewrite andb_false_r. cbn [andb].
+  specialize (IH (with_rn (chk_dev r0 i) (rn r0)) (i+1) M0).
+  destruct (start_claim_all k (with_rn (chk_dev r0 i) (rn r0)) (i+1)) as [r2 ev2]. cbn [snd] in *. rewrite IH. reflexivity.
+Qed.
 
 Theorem listen_only_silent : listen_only_silent_stmt.
 Proof.
   intros gf r o r' ev H M QE. rewrite (rstep_mode0 gf r o M) in H.
-  assert (Hres: forall b, In (EvResult b) ev -> b = false).
-  { destruct o as [[dt|pat|i m| |i]| |f|iv off idev].
-    1,2,4,5,7: cbn [rstep step] in H.
-    - injection H as <- <-. intros ? [].
-    - injection H as <- <-. intros ? [].
-    - destruct (flush _ _) as [[[q d] e] ok] eqn:E. rewrite (flush_empty_any _ _ QE) in E. injection E as <- <- <- <-. injection H as <- <-. intros ? [].
-    - unfold start_address_claim, is_ready_to_send in H. rewrite M in H. cbn [Z.eqb negb andb] in H. rewrite andb_false_r in H.
-      destruct (_ && _)%bool; injection H as <- <-; intros ? [].
-    - injection H as <- <-. intros ? [].
-    - (* SendMsg: either the node is open and the gate refuses, or Open() runs first *)
+  assert (Hres: forall i m, o = RBase (OSend i m) -> forall b, In (EvResult b) ev -> b = false).
+  { intros i m ->.
       destruct (Z.eq_dec (n_open (rn r)) 3) as [O|O].
       + destruct (app_send_fails_visibly gf_none r i m r' ev H) as (-> & _); [left; split; [exact O|left; exact M]|].
         intros b [Hb|[]]. congruence.
@@ -178,18 +187,18 @@ Proof.
           unfold open_step in EO. cbv zeta in EO.
           repeat match type of EO with (if ?c then _ else _) = _ => destruct c end;
           try (injection EO as <- <- <-; intros b []).
-          destruct (start_claim_all _ _ 0) as [ra eva]. destruct (millis64 ra) as [rc ts]. injection EO as _ <- _.
-          intros b Hb. apply in_app_iff in Hb. destruct Hb as [Hb|[Hb|[]]]; [|discriminate].
-          apply Forall_app in N0. destruct N0 as [N0 _]. rewrite Forall_forall in N0. specialize (N0 _ Hb). discriminate. }
+          match type of EO with context [start_claim_all ?k ?x 0] =>
+            pose proof (start_claim_all_mode0 k x 0) as SC; destruct (start_claim_all k x 0) as [ra eva] end.
+          cbn [snd] in SC. rewrite SC in EO by (cbn [rn with_open n_mode]; destruct (n_open (rn r) =? 0); exact M).
+          destruct (millis64 ra) as [rc ts]. injection EO as _ <- _.
+          intros b [Hb|[]]. discriminate. }
         destruct (opened && _)%bool.
         * cbn [step] in H. destruct (send_msg (rn r1) m i) as [[n1 ev1] ok] eqn:E. injection H as <- <-.
           assert (M1: n_mode (rn r1) = 0) by (eapply NR_mode; [eapply open_step_nr; exact EO|exact M]).
           unfold send_msg in E. destruct (send_gate (rn r1) m i) as [n2 [[[m' i'] id]|]] eqn:EG.
           { exfalso. pose proof (gate_facts _ _ _ _ _ _ _ EG) as F. cbv zeta in F. destruct F as (_ & _ & _ & _ & F5 & _). contradiction. }
           injection E as <- <- <-. intros b Hb. apply in_app_iff in Hb. destruct Hb as [Hb|[Hb|[]]]; [exfalso; eapply Hev0; exact Hb|congruence].
-        * injection H as <- <-. intros b Hb. apply in_app_iff in Hb. destruct Hb as [Hb|[Hb|[]]]; [exfalso; eapply Hev0; exact Hb|congruence].
-    - destruct (poll_nr gf_none gf_none_ok _ _ _ H (clock_ok_mode0 _ M)) as (p & R). destruct (run_listen _ _ _ _ _ R M QE) as (N & _).
-      intros b Hb. rewrite Forall_forall in N. specialize (N _ Hb). discriminate. }
+        * injection H as <- <-. intros b Hb. apply in_app_iff in Hb. destruct Hb as [Hb|[Hb|[]]]; [exfalso; eapply Hev0; exact Hb|congruence]. }
   destruct (is_env o) eqn:Eenv.
   - destruct o as [[dt|pat|i m| |i]| |f|iv off idev]; try discriminate Eenv; cbn [rstep step] in H; injection H as <- <-; cbn;
       repeat split; auto; constructor.
